@@ -55,7 +55,8 @@ pub fn gen_clean(rng: &mut Rng) -> (Obj, Vec<Record>) {
             o.bindings.push(("windowIcon.name".into(), "\"document-open\"".into()));
             ledger.push(Record { object: id.clone(), lhs: "windowIcon.name".into(), fate: Fate::Const { tag: "attr-theme".into(), text: "document-open".into() } });
         }
-        if matches!(fam, Family::Widget | Family::Menu) && o.class != "QTabWidget" && rng.chance(1, 3) && !has(o, "actions") {
+        let sep_child = o.children.iter().any(|c| c.bindings.iter().any(|(l, _)| l == "separator"));
+        if matches!(fam, Family::Widget | Family::Menu) && o.class != "QTabWidget" && rng.chance(1, 3) && !has(o, "actions") && !sep_child {
             let acts: Vec<String> = o
                 .children
                 .iter()
@@ -78,12 +79,36 @@ pub fn gen_clean(rng: &mut Rng) -> (Obj, Vec<Record>) {
             enrich(rng, c, ledger, counter);
         }
     }
+    // static separators (`separator: true` as the action's only binding) and, rarely, `separator: false` as the only
+    // binding (finding F18: consumed by nobody)
+    fn add_separators(rng: &mut Rng, o: &mut Obj, ledger: &mut Vec<Record>) {
+        if o.class == "QAction" {
+            let v = if rng.chance(1, 6) { Some("true") } else if rng.chance(1, 20) { Some("false") } else { None };
+            if let Some(v) = v {
+                // the action's only binding
+                let id = o.id.clone().unwrap();
+                o.bindings.clear();
+                ledger.retain(|r| r.object != id);
+                o.bindings.push(("separator".into(), v.into()));
+                ledger.push(Record { object: id, lhs: "separator".into(), fate: Fate::Const { tag: "separator".into(), text: v.into() } });
+            }
+        }
+        for c in &mut o.children {
+            add_separators(rng, c, ledger);
+        }
+    }
+    add_separators(rng, &mut root, &mut ledger);
     let mut counter = 0;
     enrich(rng, &mut root, &mut ledger, &mut counter);
     (root, ledger)
 }
 
-pub const FAULT_KINDS: usize = 20;
+/// does the document contain an action whose only binding is `separator: false` (finding F18)?
+pub fn has_separator_false_only(root: &Obj) -> bool {
+    root.pre_order().iter().any(|o| o.bindings.len() == 1 && o.bindings[0].0 == "separator" && o.bindings[0].1 == "false")
+}
+
+pub const FAULT_KINDS: usize = 22;
 
 struct Target<'a> {
     idx: usize,
@@ -133,6 +158,8 @@ pub fn plant_fault(rng: &mut Rng, root: &Obj, kind: usize) -> Option<(Obj, Fault
         16 => ("dynamic-rect-member", "geometry.x".into(), "srcSpin.value".into(), LeafSpec { konst: Konst::Dyn, readable: false, writable: false, ..base }, "not a readable property", (true, true, false), (false, false, false, false), Box::new(|t| widgetish(t.o) && !has(t.o, "geometry"))),
         17 => ("stretch-without-policy", "sizePolicy.horizontalStretch".into(), "1".into(), base.clone(), "cannot specify stretch", all, (false, false, false, false), Box::new(|t| widgetish(t.o) && !has(t.o, "sizePolicy"))),
         18 => ("negative-layout-index", "QLayout.row".into(), "-1".into(), LeafSpec { range_ok: false, readable: false, writable: false, ..base }, "negative row is not allowed", all, (false, false, false, false), Box::new(|t| t.parent.map(|p| p.class == "QGridLayout").unwrap_or(false) && !has(t.o, "QLayout.row"))),
+        19 => ("duplicated-attached-binding", String::new(), String::new(), base.clone(), "duplicated binding", all, (false, true, false, false), Box::new(|t| t.parent.map(|p| family_of(&p.class) == Family::Layout).unwrap_or(false) && t.o.bindings.iter().any(|(l, _)| l.starts_with("QLayout.")))),
+        20 => ("faulty-binding-on-separator", "text".into(), "42".into(), LeafSpec { konst: Konst::Fail, ret_ok: false, ..base }, "expression type mismatch", all, (false, false, false, false), Box::new(|t| t.o.bindings.len() == 1 && t.o.bindings[0].0 == "separator" && t.o.bindings[0].1 == "true")),
         _ => ("unknown-property-on-action-or-spacer", "noSuchProperty".into(), "1".into(), LeafSpec { enters: false, ..base }, "unknown property of class", all, (false, false, false, false), Box::new(|t| matches!(family_of(&t.o.class), Family::Action | Family::Spacer))),
     };
     // never touch the dynamic-expression sources (other bindings read them) and keep static separators static
@@ -140,7 +167,7 @@ pub fn plant_fault(rng: &mut Rng, root: &Obj, kind: usize) -> Option<(Obj, Fault
         .iter()
         .filter(|t| pred(t))
         .filter(|t| t.o.id.as_deref().map(|i| !i.starts_with("src")).unwrap_or(true))
-        .filter(|t| !is_sep(t.o) || !spec.enters)
+        .filter(|t| !is_sep(t.o) || !spec.enters || kind == 20)
         .collect();
     if cands.is_empty() {
         return None;
@@ -151,6 +178,16 @@ pub fn plant_fault(rng: &mut Rng, root: &Obj, kind: usize) -> Option<(Obj, Fault
     if flags.0 {
         let plain: Vec<&(String, String)> = t.o.bindings.iter().filter(|(l, _)| !l.contains('.') && !l.starts_with("on")).collect();
         let (l, r) = (*rng.pick(&plain)).clone();
+        lhs = l;
+        rhs = r;
+    }
+    if flags.1 {
+        // prefer the positional attached bindings (row / column): losing them is what moves the siblings
+        let mut att: Vec<&(String, String)> = t.o.bindings.iter().filter(|(l, _)| l == "QLayout.row" || l == "QLayout.column").collect();
+        if att.is_empty() {
+            att = t.o.bindings.iter().filter(|(l, _)| l.starts_with("QLayout.")).collect();
+        }
+        let (l, r) = (*rng.pick(&att)).clone();
         lhs = l;
         rhs = r;
     }
@@ -219,7 +256,10 @@ impl Stream for C04 {
             let mut rng = Rng::fork(seed, "c04", k as u64);
             let (root, records) = gen_clean(&mut rng);
             let doc = Doc::build(&root, &records, &[]);
-            let labels = vec![format!("objects{}", doc.objs.len() / 10 * 10), format!("bindings{}", doc.bindings.len() / 20 * 20), "clean".to_string()];
+            let mut labels = vec![format!("objects{}", doc.objs.len() / 10 * 10), format!("bindings{}", doc.bindings.len() / 20 * 20), "clean".to_string()];
+            if has_separator_false_only(&root) {
+                labels.push("separator-false-only".into());
+            }
             let mut args = tables_of(&doc);
             args.push(fates_sexp(&doc));
             cases.push(Case { kind: "oracle", labels: labels.clone(), request: node("c04-ledger", args) });
@@ -325,6 +365,9 @@ fn ledger_oracle(tm: &TypeMap, args: &[Sexp]) -> Sexp {
     let mut expected_updates: BTreeSet<String> = BTreeSet::new();
     let mut expected_ons: BTreeSet<String> = BTreeSet::new();
     let (mut n_const, mut n_dyn, mut n_cb, mut n_rep, mut n_pseudo) = (0, 0, 0, 0, 0);
+    // bindings found in neither output although the document was accepted without a diagnostic (reported last, so that
+    // any other imbalance of the same document is reported first)
+    let mut neither: Vec<String> = vec![];
     // groups with a dynamic member
     let dynamic_groups: BTreeSet<(usize, String)> = fates
         .iter()
@@ -350,6 +393,16 @@ fn ledger_oracle(tm: &TypeMap, args: &[Sexp]) -> Sexp {
             "const" => {
                 n_const += 1;
                 let (tag, text) = (l[2].as_str().unwrap(), l[3].as_str().unwrap());
+                if tag == "separator" && text == "false" {
+                    // cannot be a value of the .ui (`separator` is no Q_PROPERTY): it takes effect iff the header sets it
+                    match &names {
+                        Some((top, _)) if scan.update_fns.contains(top) => {
+                            expected_updates.insert(top.clone());
+                        }
+                        _ => neither.push(what.clone()),
+                    }
+                    continue;
+                }
                 let Some(found) = found else {
                     return fail(format!("constant binding {what} not found in the .ui"));
                 };
@@ -473,6 +526,12 @@ fn ledger_oracle(tm: &TypeMap, args: &[Sexp]) -> Sexp {
     if scan.callback_connects.len() != expected_ons.len() {
         return fail(format!("{} callback connects for {} handlers", scan.callback_connects.len(), expected_ons.len()));
     }
+    if let Some(first) = neither.first() {
+        return fail(format!(
+            "binding in neither .ui nor header and no diagnostic: {first} (QAction whose only binding is 'separator: false'); {} such binding(s)",
+            neither.len()
+        ));
+    }
     node("ok", vec![atom("const"), num(n_const), atom("dynamic"), num(n_dyn), atom("callbacks"), num(n_cb), atom("repeated"), num(n_rep), atom("pseudo"), num(n_pseudo)])
 }
 
@@ -591,6 +650,14 @@ fn witness_request(name: &str) -> Sexp {
         "separator-plus-fault" => {
             let f = Fault { name: "ill-typed-constant", obj: 1, lhs: "text".into(), rhs: "42".into(), spec: LeafSpec { konst: Konst::Fail, ret_ok: false, ..LeafSpec::default() }, map_fault: false, att_fault: false, att_unresolved: false, unknown_type: false, message: "expression type mismatch", reported: (true, true, true) };
             Doc::build(&root(vec![Obj::new("QAction").with_id("a").bind("separator", "true").bind("text", "42")]), &[], &[f]).request(Mode::Omit)
+        }
+        "separator-false-ledger" => {
+            let r = root(vec![Obj::new("QAction").with_id("a").bind("separator", "false")]);
+            let recs = vec![Record { object: "a".into(), lhs: "separator".into(), fate: Fate::Const { tag: "separator".into(), text: "false".into() } }];
+            let doc = Doc::build(&r, &recs, &[]);
+            let mut args = tables_of(&doc);
+            args.push(fates_sexp(&doc));
+            node("c04-ledger", args)
         }
         "separator-alone" => Doc::build(&root(vec![Obj::new("QAction").with_id("a").bind("separator", "true")]), &[], &[]).request(Mode::Omit),
         _ => node("bad-request", vec![]),
